@@ -223,3 +223,96 @@ pub proof fn lemma_pay_public_values_pinned(p: PayProof, pk: PublicKey<5>, revp:
     lemma_s_cancel_left(zo[4], s_mul(c, amt), s_mul(c, amt2));
     lemma_s_mul_cancel(c, amt, amt2);
 }
+
+/// response scalars of the commitment proof inside a signature proof
+pub open spec fn sp_z<const N: usize>(p: SignatureProof<N>) -> Seq<Scalar> { (*p.commitment_proof.message_response_scalars)@ }
+
+/// C02, special soundness of the pay relation (algebraic part): two accepting transcripts that share every
+/// non-response field and the public values, and differ in the challenge, yield
+///  - an opening wo of the commitment inside the pay-token proof, and the shown blinded signature unblinds to a VALID
+///    signature of the merchant on wo (so wo is a state the merchant signed - unforgeability is the assumed step);
+///  - openings ws, wc of the new state / close-state commitments and wr of the revocation-lock commitment,
+/// with exactly the links the property demands: same channel id everywhere, the old nonce is the revealed one, the committed
+/// lock is the old state's lock, the close state carries the close tag and the new state's lock, and the new balances
+/// are the old ones moved by the public amount.
+pub proof fn lemma_pay_special_soundness(p: PayProof, p2: PayProof, pk: PublicKey<5>, revp: PedersenParameters<G1Projective, 1>, rp: RangeConstraintParameters,
+                                         nonce: Scalar, amt: Scalar, c: Scalar, c2: Scalar)
+    requires
+        pay_accept(p, pk, revp, rp, nonce, amt, c), pay_accept(p2, pk, revp, rp, nonce, amt, c2), c != c2,
+        // same first message
+        p.old_pay_token_proof.blinded_signature == p2.old_pay_token_proof.blinded_signature,
+        p.old_pay_token_proof.commitment_proof.commitment == p2.old_pay_token_proof.commitment_proof.commitment,
+        p.old_pay_token_proof.commitment_proof.scalar_commitment == p2.old_pay_token_proof.commitment_proof.scalar_commitment,
+        p.old_revocation_lock_proof.commitment == p2.old_revocation_lock_proof.commitment,
+        p.old_revocation_lock_proof.scalar_commitment == p2.old_revocation_lock_proof.scalar_commitment,
+        p.state_proof.commitment_proof.commitment == p2.state_proof.commitment_proof.commitment,
+        p.state_proof.commitment_proof.scalar_commitment == p2.state_proof.commitment_proof.scalar_commitment,
+        p.close_state_proof.commitment_proof.commitment == p2.close_state_proof.commitment_proof.commitment,
+        p.close_state_proof.commitment_proof.scalar_commitment == p2.close_state_proof.commitment_proof.scalar_commitment,
+        p.old_nonce_commitment_scalar == p2.old_nonce_commitment_scalar, p.close_tag_commitment_scalar == p2.close_tag_commitment_scalar,
+        (*pk.y1s)@.len() == 5, (*pk.y2s)@.len() == 5, (*revp.gs)@.len() == 1,
+        srp_z(p.state_proof).len() == 5, srp_z(p2.state_proof).len() == 5, srp_z(p.close_state_proof).len() == 5, srp_z(p2.close_state_proof).len() == 5,
+        sp_z(p.old_pay_token_proof).len() == 5, sp_z(p2.old_pay_token_proof).len() == 5,
+        (*p.old_revocation_lock_proof.message_response_scalars)@.len() == 1, (*p2.old_revocation_lock_proof.message_response_scalars)@.len() == 1,
+    ensures
+        ({
+            let ws = extract(srp_z(p.state_proof), srp_z(p2.state_proof), c, c2);
+            let wc = extract(srp_z(p.close_state_proof), srp_z(p2.close_state_proof), c, c2);
+            let wo = extract(sp_z(p.old_pay_token_proof), sp_z(p2.old_pay_token_proof), c, c2);
+            let wr = extract((*p.old_revocation_lock_proof.message_response_scalars)@, (*p2.old_revocation_lock_proof.message_response_scalars)@, c, c2);
+            let rs = extract1(p.state_proof.commitment_proof.blinding_factor_response_scalar, p2.state_proof.commitment_proof.blinding_factor_response_scalar, c, c2);
+            let rc = extract1(p.close_state_proof.commitment_proof.blinding_factor_response_scalar, p2.close_state_proof.commitment_proof.blinding_factor_response_scalar, c, c2);
+            let ro = extract1(p.old_pay_token_proof.commitment_proof.blinding_factor_response_scalar, p2.old_pay_token_proof.commitment_proof.blinding_factor_response_scalar, c, c2);
+            let rr = extract1(p.old_revocation_lock_proof.blinding_factor_response_scalar, p2.old_revocation_lock_proof.blinding_factor_response_scalar, c, c2);
+            let sig = p.old_pay_token_proof.blinded_signature.0;
+            // openings
+            &&& p.state_proof.commitment_proof.commitment.0 == com(pk.g1, (*pk.y1s)@, ws, rs)
+            &&& p.close_state_proof.commitment_proof.commitment.0 == com(pk.g1, (*pk.y1s)@, wc, rc)
+            &&& p.old_revocation_lock_proof.commitment.0 == com(revp.h, (*revp.gs)@, wr, rr)
+            // the customer holds a valid merchant signature on the old state wo
+            &&& ps_valid(pk.g2, pk.x2, (*pk.y2s)@, wo, sig.sigma1, g_sub(sig.sigma2, g_mul(sig.sigma1, ro)))
+            // links
+            &&& ws[0] == wo[0] && wc[0] == wo[0]
+            &&& wo[1] == nonce
+            &&& wr[0] == wo[2]
+            &&& wc[1] == CLOSE_SCALAR
+            &&& wc[2] == ws[2]
+            &&& ws[3] == s_sub(wo[3], amt) && wc[3] == ws[3]
+            &&& ws[4] == s_add(wo[4], amt) && wc[4] == ws[4]
+        }),   // @ob pay-special-soundness [C02]
+{
+    let zs = srp_z(p.state_proof); let zs2 = srp_z(p2.state_proof);
+    let zc = srp_z(p.close_state_proof); let zc2 = srp_z(p2.close_state_proof);
+    let zo = sp_z(p.old_pay_token_proof); let zo2 = sp_z(p2.old_pay_token_proof);
+    let zr = (*p.old_revocation_lock_proof.message_response_scalars)@; let zr2 = (*p2.old_revocation_lock_proof.message_response_scalars)@;
+    let tp = p.old_pay_token_proof.commitment_proof; let tp2 = p2.old_pay_token_proof.commitment_proof;
+    lemma_schnorr_special_soundness(pk.g1, (*pk.y1s)@, p.state_proof.commitment_proof.commitment.0, p.state_proof.commitment_proof.scalar_commitment.0,
+        p.state_proof.commitment_proof.blinding_factor_response_scalar, zs, c, p2.state_proof.commitment_proof.blinding_factor_response_scalar, zs2, c2);
+    lemma_schnorr_special_soundness(pk.g1, (*pk.y1s)@, p.close_state_proof.commitment_proof.commitment.0, p.close_state_proof.commitment_proof.scalar_commitment.0,
+        p.close_state_proof.commitment_proof.blinding_factor_response_scalar, zc, c, p2.close_state_proof.commitment_proof.blinding_factor_response_scalar, zc2, c2);
+    lemma_schnorr_special_soundness(revp.h, (*revp.gs)@, p.old_revocation_lock_proof.commitment.0, p.old_revocation_lock_proof.scalar_commitment.0,
+        p.old_revocation_lock_proof.blinding_factor_response_scalar, zr, c, p2.old_revocation_lock_proof.blinding_factor_response_scalar, zr2, c2);
+    lemma_schnorr_special_soundness(pk.g2, (*pk.y2s)@, tp.commitment.0, tp.scalar_commitment.0,
+        tp.blinding_factor_response_scalar, zo, c, tp2.blinding_factor_response_scalar, zo2, c2);
+    let ws = extract(zs, zs2, c, c2);
+    let wc = extract(zc, zc2, c, c2);
+    let wo = extract(zo, zo2, c, c2);
+    let wr = extract(zr, zr2, c, c2);
+    let ro = extract1(tp.blinding_factor_response_scalar, tp2.blinding_factor_response_scalar, c, c2);
+    assert forall|i: int| 0 <= i < 5 implies #[trigger] ws[i] == extract1(zs[i], zs2[i], c, c2) && #[trigger] wc[i] == extract1(zc[i], zc2[i], c, c2)
+        && #[trigger] wo[i] == extract1(zo[i], zo2[i], c, c2) by {}
+    assert(wr[0] == extract1(zr[0], zr2[0], c, c2));
+    // the shown signature unblinds to a valid signature on the extracted old state
+    lemma_ps_unblind_link(pk.g2, pk.x2, (*pk.y2s)@, wo, p.old_pay_token_proof.blinded_signature.0.sigma1, p.old_pay_token_proof.blinded_signature.0.sigma2, ro);
+    // links
+    lemma_extract_equal_slots(zs[0], zs2[0], zo[0], zo2[0], c, c2);
+    lemma_extract_equal_slots(zc[0], zc2[0], zo[0], zo2[0], c, c2);
+    lemma_extract_public_slot(zo[1], zo2[1], c, c2, nonce, p.old_nonce_commitment_scalar);
+    lemma_extract_equal_slots(zr[0], zr2[0], zo[2], zo2[2], c, c2);
+    lemma_extract_public_slot(zc[1], zc2[1], c, c2, CLOSE_SCALAR, p.close_tag_commitment_scalar);
+    lemma_extract_equal_slots(zc[2], zc2[2], zs[2], zs2[2], c, c2);
+    lemma_extract_shifted_slot_sub(zs[3], zs2[3], zo[3], zo2[3], c, c2, amt);
+    lemma_extract_equal_slots(zc[3], zc2[3], zs[3], zs2[3], c, c2);
+    lemma_extract_shifted_slot(zs[4], zs2[4], zo[4], zo2[4], c, c2, amt);
+    lemma_extract_equal_slots(zc[4], zc2[4], zs[4], zs2[4], c, c2);
+}
